@@ -6,6 +6,7 @@ import (
 	"fmt"
 	"io"
 	"os"
+	"os/exec"
 	"path/filepath"
 	"sort"
 	"strconv"
@@ -351,6 +352,42 @@ func runC13Alloc(threads int, r *xrun) []Violation {
 type c13Gate struct {
 	Role  string // which process waits: runner | daemon
 	Point string
+	Hit   int // hold at the Hit-th arrival at the point (0, 1: the first)
+}
+
+func countLines(path string) int {
+	b, _ := os.ReadFile(path)
+	return strings.Count(string(b), "\n")
+}
+
+// waitArrivals waits until the gate has been reached n times, letting the first n-1 arrivals pass.
+func waitArrivals(dir string, g c13Gate, n int, timeout time.Duration) bool {
+	dl := time.Now().Add(timeout)
+	for h := 1; h <= n; h++ {
+		for countLines(gateFile(dir, g, "arrived")) < h {
+			if time.Now().After(dl) {
+				return false
+			}
+			time.Sleep(5 * time.Millisecond)
+		}
+		if h < n {
+			os.WriteFile(gateFile(dir, g, "go"), nil, 0o600)
+			time.Sleep(60 * time.Millisecond)
+			os.Remove(gateFile(dir, g, "go"))
+		}
+	}
+	return true
+}
+
+func childrenOf(pid int) []int {
+	out, _ := exec.Command("pgrep", "-P", strconv.Itoa(pid)).Output()
+	var res []int
+	for _, f := range strings.Fields(string(out)) {
+		if p, err := strconv.Atoi(f); err == nil {
+			res = append(res, p)
+		}
+	}
+	return res
 }
 
 func gateFile(dir string, g c13Gate, suffix string) string {
@@ -399,11 +436,28 @@ func runC13CancelRace(g c13Gate, unit string) CaseOut {
 	var seenBefore *unitStatus
 	if g.Role == "runner" {
 		// the runner is held at the point; the whole cancel runs meanwhile
-		if !waitFile(gateFile(dir, g, "arrived"), 20*time.Second) {
+		hit := g.Hit
+		if hit < 1 {
+			hit = 1
+		}
+		if !waitArrivals(dir, g, hit, 20*time.Second) {
 			out.count("gate_not_reached", 1)
 			out.Outcome = "gate-not-reached"
 			return out
 		}
+		var runnerPid int
+		if b, err := os.ReadFile(gateFile(dir, g, "arrived")); err == nil {
+			f := strings.Fields(string(b))
+			if len(f) > 0 {
+				runnerPid, _ = strconv.Atoi(f[len(f)-1])
+			}
+		}
+		cmdProcs := childrenOf(runnerPid)
+		defer func() {
+			for _, p := range cmdProcs {
+				syscall.Kill(p, syscall.SIGKILL)
+			}
+		}()
 		time.Sleep(700 * time.Millisecond) // let the daemon's monitor load the record
 		seenBefore, _, _ = d.status(id, 10*time.Second)
 		done := make(chan struct{})
@@ -417,6 +471,21 @@ func runC13CancelRace(g c13Gate, unit string) CaseOut {
 			// cancel waits for the process: let the runner go on
 		}
 		os.WriteFile(gateFile(dir, g, "go"), nil, 0o600)
+		if unit == "long" {
+			// the command would run for another 25 s: a cancel that was requested while the runner was busy
+			// must still stop it
+			select {
+			case <-done:
+			case <-time.After(10 * time.Second):
+			}
+			time.Sleep(300 * time.Millisecond)
+			for _, p := range append([]int{runnerPid}, cmdProcs...) {
+				if pidAlive(p) {
+					out.violate("unit:cancel-left-process", "%s: 10 s after the cancel (reply %q) process %d of the unit is still running", ctx, trunc(cancelReply, 60), p)
+					syscall.Kill(p, syscall.SIGKILL)
+				}
+			}
+		}
 		<-done
 	} else {
 		// the daemon's cancel is held at the point; the runner finishes meanwhile
@@ -492,10 +561,20 @@ func runC13(w *W) {
 			})
 		}
 	}
-	for _, g := range []c13Gate{{"runner", "runner.started"}, {"runner", "runner.final_written"}, {"daemon", "cancel.before_signal"}, {"daemon", "cancel.before_write"}} {
+	for _, g := range []c13Gate{{"runner", "runner.started", 1}, {"runner", "runner.final_written", 1}, {"daemon", "cancel.before_signal", 1}, {"daemon", "cancel.before_write", 1}} {
 		for _, unit := range []string{"cat", "slow", "fail"} {
 			g, unit := g, unit
 			w.Case(fmt.Sprintf("cancel-race gate=%s.%s unit=%s", g.Role, g.Point, unit), func() CaseOut { return runC13CancelRace(g, unit) })
+		}
+	}
+	// the cancel signal arrives while the runner is busy: before its loop, and on its way into a periodic rewrite
+	for _, g := range []c13Gate{{"runner", "runner.started", 1}, {"runner", "lock.before", 2}, {"runner", "lock.before", 3}} {
+		for _, unit := range []string{"long", "slow"} {
+			g, unit := g, unit
+			if g.Point == "runner.started" && unit == "slow" {
+				continue // covered above
+			}
+			w.Case(fmt.Sprintf("cancel-race gate=%s.%s#%d unit=%s", g.Role, g.Point, g.Hit, unit), func() CaseOut { return runC13CancelRace(g, unit) })
 		}
 	}
 	for _, n := range []int{2, 3} {
